@@ -129,7 +129,7 @@ def spline_space(draw, max_degree=5, min_cells=1, max_cells=12, periodic=None, c
     else:
         p = draw(st.integers(1, max_degree))
     per = draw(st.booleans()) if periodic is None else periodic
-    lo = max(min_cells, p + 1) if per else min_cells
+    lo = max(min_cells, p) if per else min_cells       # make_knots admits periodic spaces with cells >= degree
     nc = draw(st.integers(lo, max(max_cells, lo)))
     a = draw(st.sampled_from(ORIGINS))
     L = draw(st.sampled_from(LENGTHS))
